@@ -447,7 +447,12 @@ fn run_seq(t: &[&str]) -> String {
         }
         "newwith" => {
             let (w, h) = (c.u32(), c.u32());
-            let b = buf_root.insert(Buf2::<u32>::new_with((w, h), |x, y| 100 * y + x + 1));
+            // the init function is only ever asked for cells of the buffer (one that reads another buffer of the
+            // same size would panic otherwise)
+            let b = buf_root.insert(Buf2::<u32>::new_with((w, h), |x, y| {
+                assert!(x < w && y < h, "init function called for ({x},{y}), outside the {w}x{h} buffer");
+                100 * y + x + 1
+            }));
             out.push("ok".into());
             run_rw(b, &mut c, &mut out);
         }
